@@ -141,6 +141,14 @@ pub fn gen_rand(a: &Args, out: &mut Out, run0: u64, nruns: u64, strict_pct: u32)
         // pointers for LDI/STI near the PC
         for d in [0u16, 1, 2, 6, 0x100, 0xFFFF, 0xFFF1] { if chance(&mut rng, 40) { pokes.push((pc.wrapping_add(d).wrapping_add(1), word(interesting(&mut rng), 0xFFFF))); } }
         m.set_mems(out, &pokes);
+        // the flags are a public field of a live simulator: debug frames switched on or off (or another flag changed)
+        // after construction, without a reset
+        if chance(&mut rng, 25) {
+            let f0 = crate::machine::Flags::of(&flags);
+            let f = if chance(&mut rng, 70) { crate::machine::Flags { strict: f0.strict, real: f0.real, dbg: !f0.dbg, ignp: f0.ignp } }
+                    else { crate::machine::Flags { strict: f0.strict, real: !f0.real, dbg: f0.dbg, ignp: chance(&mut rng, 30) } };
+            m.set_flags(out, &f);
+        }
         let nsteps = rng.random_range(1..7);
         for _ in 0..nsteps {
             if m.step(out, false, false) == "panic" { break; }
